@@ -158,7 +158,7 @@ def expected_equal_spaces(a, b):
 
 AXIOMS = ["zeros-identity", "add-commutative", "add-associative", "add-equals-mut_add", "scalar-distributes", "inner-symmetric",
           "inner-bilinear", "inner-positive-orthonormal", "covector-involution", "basis-complete", "size", "mut_add-none-fresh",
-          "zeros-ones-structure", "dict-key-order"]
+          "zeros-ones-structure", "dict-key-order", "inner-reference"]
 
 
 def reorder(v):
@@ -265,6 +265,35 @@ def axioms_factory(quick, seed):
                     nonzero = any(onp.any(onp.asarray(l) != 0) for l in tleaves(x))
                     if (nonzero and not n2 > 0) or (not nonzero and n2 != 0):
                         fail("<x,x> not positive definite", n2, "> 0")
+            elif ax == "inner-reference":
+                # the inner product IS sum(re(conj(x) y)) over all leaves, evaluated in (at least) the leaves' own precision and range
+                LD = onp.longdouble
+
+                def ref(x, y):
+                    tot, mag = LD(0), LD(0)
+                    for a, b in zip(tleaves(x), tleaves(y)):
+                        a, b = onp.asarray(a).reshape(-1), onp.asarray(b).reshape(-1)
+                        for p, q in zip(a, b):
+                            pr, pi, qr, qi = LD(onp.real(p)), LD(onp.imag(p)), LD(onp.real(q)), LD(onp.imag(q))
+                            tot += pr * qr + pi * qi
+                            mag += abs(pr * qr) + abs(pi * qi)
+                    return tot, mag
+                for x, y in itertools.product(vecs[-3:], repeat=2):
+                    nchecks += 1
+                    got = vs.inner_prod(x, y)
+                    want, mag = ref(x, y)
+                    if not abs(LD(got) - want) <= LD(tol) * mag:
+                        fail("<x,y> differs from sum(re(conj(x) y)) beyond the space's own precision", got, want)
+                # range: entries whose squares are representable in the leaves' dtype but not in a narrower one
+                dts = {onp.asarray(l).dtype for l in tleaves(v) if isinstance(l, (onp.ndarray, onp.generic))}
+                if len(dts) == 1 and any(onp.asarray(l).size for l in tleaves(v)):
+                    fi = onp.finfo(next(iter(dts)))
+                    for e in (fi.minexp // 4, fi.maxexp // 4):
+                        nchecks += 1
+                        x = tmap(lambda l: (onp.ones_like(l) * onp.asarray(2.0, dtype=fi.dtype) ** e).astype(onp.asarray(l).dtype), v)
+                        got, (want, _) = vs.inner_prod(x, x), ref(x, x)
+                        if not (onp.isfinite(got) and got > 0 and abs(LD(got) - want) <= LD(tol) * want):
+                            fail("<x,x> for entries 2**%d leaves the dtype's range" % e, got, want)
             elif ax == "covector-involution":
                 for x in vecs:
                     nchecks += 1
